@@ -705,6 +705,53 @@ pub enum Call {
     Now { ty: Ty },
     FromTime { ty: Ty, raw: i64 },
     Func { name: String, args: Args },
+    /// lazy `Display` values that are held for a while: `value.format(pic)?` is created first,
+    /// then the `fillers` (values of type `fty`, each with its own picture) are formatted —
+    /// rendered at once, or held as well — and only then is the first value rendered. This is
+    /// what `write!(out, "{} {}", a.format(p1)?, b.format(p2)?)` does (both `format` calls are
+    /// evaluated before either value is rendered), and what a caller does who keeps the
+    /// value around.
+    Held { ty: Ty, raw: i64, pic: String, fty: Ty, fillers: Vec<(i64, String)>, at_once: bool },
+}
+
+pub const HELD_MAX: usize = 40;
+
+fn held_rest<D: std::fmt::Display>(first: D, fty: Ty, fillers: &[(i64, String)], at_once: bool, sink: &mut FaultySink) -> &'static str {
+    macro_rules! go {
+        ($mk:expr) => {{
+            let mut held: [Option<_>; HELD_MAX] = std::array::from_fn(|_| None);
+            for (k, (raw, pic)) in fillers.iter().enumerate().take(HELD_MAX) {
+                if let Some(v) = $mk(*raw) {
+                    match v.format(pic) {
+                        Ok(d) => {
+                            if at_once {
+                                let _ = write!(sink, "{}", d);
+                            } else {
+                                held[k] = Some(d);
+                            }
+                        }
+                        Err(e) => drop(e),
+                    }
+                }
+            }
+            let r = write!(sink, "{}", first);
+            for h in held.iter().flatten() {
+                let _ = write!(sink, " {}", h);
+            }
+            match r {
+                Ok(()) => "ok",
+                Err(_) => "fmt::Error",
+            }
+        }};
+    }
+    match fty {
+        Ty::Date => go!(|r: i64| Date::try_from_days(r as i32).ok()),
+        Ty::Timestamp => go!(|r: i64| Timestamp::try_from_usecs(r).ok()),
+        Ty::Time => go!(|r: i64| Time::try_from_usecs(r).ok()),
+        Ty::IntervalYM => go!(|r: i64| IntervalYM::try_from_months(r as i32).ok()),
+        Ty::IntervalDT => go!(|r: i64| IntervalDT::try_from_usecs(r).ok()),
+        Ty::Oracle => go!(|r: i64| OracleDate::try_from_usecs(r).ok()),
+    }
 }
 
 impl Call {
@@ -730,6 +777,7 @@ impl Call {
             Call::Now { ty } => format!("{}::now", ty.name()),
             Call::FromTime { ty, .. } => format!("{}::try_from(Time)", ty.name()),
             Call::Func { name, .. } => name.clone(),
+            Call::Held { ty, .. } => format!("held({}::format)", ty.name()),
         }
     }
 
@@ -769,6 +817,15 @@ impl Call {
             Call::Now { ty } => format!("{}::now()", ty.name()),
             Call::FromTime { ty, raw } => format!("{}::try_from(Time[{} us])", ty.name(), raw),
             Call::Func { name, args } => format!("{} with {}", name, args.to_json()),
+            Call::Held { ty, raw, pic, fty, fillers, at_once } => format!(
+                "let held = {}[raw {}].format({})?; then {} values of {} formatted with pictures of their own ({}); then write!(sink, \"{{}}\", held)",
+                ty.name(),
+                raw,
+                clip(pic),
+                fillers.len(),
+                fty.name(),
+                if *at_once { "each rendered at once" } else { "all held too, rendered after it" }
+            ),
         }
     }
 
@@ -788,6 +845,10 @@ impl Call {
             Call::Now { ty } => json!({"call": "now", "type": ty.name()}),
             Call::FromTime { ty, raw } => json!({"call": "from_time", "type": ty.name(), "raw": raw}),
             Call::Func { name, args } => json!({"call": "func", "name": name, "args": args.to_json()}),
+            Call::Held { ty, raw, pic, fty, fillers, at_once } => json!({
+                "call": "held", "type": ty.name(), "raw": raw, "picture": pic, "filler_type": fty.name(),
+                "fillers": fillers.iter().map(|(r, p)| json!([r, p])).collect::<Vec<_>>(), "fillers_rendered_at_once": at_once,
+            }),
         }
     }
 
@@ -819,6 +880,19 @@ impl Call {
             "now" => Call::Now { ty: ty()? },
             "from_time" => Call::FromTime { ty: ty()?, raw: v["raw"].as_i64().ok_or("raw")? },
             "func" => Call::Func { name: s("name")?, args: Args::from_json(&v["args"])? },
+            "held" => Call::Held {
+                ty: ty()?,
+                raw: v["raw"].as_i64().ok_or("raw")?,
+                pic: s("picture")?,
+                fty: Ty::from_name(v["filler_type"].as_str().unwrap_or("")).ok_or("filler_type")?,
+                fillers: v["fillers"]
+                    .as_array()
+                    .ok_or("fillers")?
+                    .iter()
+                    .filter_map(|x| Some((x[0].as_i64()?, x[1].as_str()?.to_string())))
+                    .collect(),
+                at_once: v["fillers_rendered_at_once"].as_bool().unwrap_or(true),
+            },
             o => return Err(format!("unknown call {o}")),
         })
     }
@@ -1023,6 +1097,27 @@ pub fn execute(call: &Call, tables: &Tables, vals: Option<&Vals>, sink: &mut Fau
             },
             Err(_) => "not-a-value",
         },
+        Call::Held { ty, raw, pic, fty, fillers, at_once } => {
+            macro_rules! h {
+                ($val:expr) => {
+                    match $val {
+                        Ok(v) => match v.format(pic) {
+                            Ok(d) => held_rest(d, *fty, fillers, *at_once, sink),
+                            Err(e) => res::<()>(Err(e)),
+                        },
+                        Err(_) => "not-a-value",
+                    }
+                };
+            }
+            match ty {
+                Ty::Date => h!(Date::try_from_days(*raw as i32)),
+                Ty::Timestamp => h!(Timestamp::try_from_usecs(*raw)),
+                Ty::Time => h!(Time::try_from_usecs(*raw)),
+                Ty::IntervalYM => h!(IntervalYM::try_from_months(*raw as i32)),
+                Ty::IntervalDT => h!(IntervalDT::try_from_usecs(*raw)),
+                Ty::Oracle => h!(OracleDate::try_from_usecs(*raw)),
+            }
+        }
         Call::Func { name, .. } => match (funcs.iter().find(|(n, _)| n == name), vals) {
             (Some((_, f)), Some(v)) => {
                 f(v);
@@ -1354,7 +1449,32 @@ pub fn gen_call(rng: &mut Rng, tables: &Tables) -> Call {
             let flags = if display && rng.chance(1, 2) { rng.below(DISPLAY_FLAGS.len() as u64) as u8 } else { 0 };
             Call::Format { ty, raw: draw_value(rng, ty), pic: gen_picture(rng), display, flags }
         }
-        75..=77 => Call::Now { ty: *rng.pick(&[Ty::Date, Ty::Timestamp, Ty::Oracle]) },
+        75..=77 => {
+            if rng.chance(1, 2) {
+                // held lazy values: usually pictures that apply to the type, so that something is rendered
+                let ty = *rng.pick(&ALL_TYPES);
+                let fty = *rng.pick(&ALL_TYPES);
+                let n = *rng.pick(&[1usize, 1, 2, 3, 8, 15, 16, 17, 31, 32, 33, 34, HELD_MAX]);
+                let pic_for = |rng: &mut Rng, t: Ty, k: usize| -> String {
+                    if rng.chance(1, 4) {
+                        return gen_picture(rng);
+                    }
+                    // distinct pictures: a common shape for the type plus k blanks
+                    let base = match t {
+                        Ty::Date => *rng.pick(&["YYYY-MM-DD", "DD MON YYYY", "DAY", "YYYY DDD", "MONTH DD, YYYY"]),
+                        Ty::Timestamp | Ty::Oracle => *rng.pick(&["YYYY-MM-DD HH24:MI:SS", "DD-MON-YY HH:MI AM", "YYYY-MM-DD", "HH24:MI"]),
+                        Ty::Time => *rng.pick(&["HH24:MI:SS.FF6", "HH:MI AM", "HH24", "MI:SS"]),
+                        Ty::IntervalYM => *rng.pick(&["YYYY-MM", "YY MM", "MM"]),
+                        Ty::IntervalDT => *rng.pick(&["DD HH24:MI:SS.FF6", "DD", "HH24:MI:SS"]),
+                    };
+                    format!("{}{}", base, " ".repeat(k))
+                };
+                let pic = pic_for(rng, ty, 0);
+                let fillers = (0..n).map(|k| (draw_value(rng, fty), pic_for(rng, fty, k + 1))).collect();
+                return Call::Held { ty, raw: draw_value(rng, ty), pic, fty, fillers, at_once: rng.bool() };
+            }
+            Call::Now { ty: *rng.pick(&[Ty::Date, Ty::Timestamp, Ty::Oracle]) }
+        }
         81..=88 => {
             let (name, _) = rng.pick(&tables.prods);
             Call::Chain { producer: name.to_string(), args: Args::draw(rng), pic: gen_picture(rng), display: rng.chance(1, 3) }
